@@ -34,23 +34,25 @@ impl Layout {
     pub fn get_dynamics_or_consts(
         &self,
         dynamic_params: &Option<BTreeMap<String, u32>>,
-    ) -> LayoutConstants {
+    ) -> anyhow::Result<LayoutConstants> {
         let consts = self.get_consts();
 
         match dynamic_params {
-            Some(dynamic_params) => LayoutConstants {
-                cpu_component_step: *dynamic_params
-                    .get("cpu_component_step")
-                    .unwrap_or(&consts.cpu_component_step),
-                constraint_degree: consts.constraint_degree,
-                num_columns_first: *dynamic_params
-                    .get("num_columns_first")
-                    .unwrap_or(&consts.cpu_component_step),
-                num_columns_second: *dynamic_params
-                    .get("num_columns_second")
-                    .unwrap_or(&consts.cpu_component_step),
-            },
-            None => consts,
+            Some(dynamic_params) => {
+                let get = |name: &str| {
+                    dynamic_params
+                        .get(name)
+                        .copied()
+                        .ok_or(anyhow::anyhow!("Missing dynamic param {name}"))
+                };
+                Ok(LayoutConstants {
+                    cpu_component_step: get("cpu_component_step")?,
+                    constraint_degree: consts.constraint_degree,
+                    num_columns_first: get("num_columns_first")?,
+                    num_columns_second: get("num_columns_second")?,
+                })
+            }
+            None => Ok(consts),
         }
     }
     pub fn bytes_encode(&self) -> Vec<u8> {
